@@ -48,6 +48,7 @@ DECIDING = {
     "ending_signal_during_run": "signal during a CLI run()",
     "ending_service_crash_after": "service task crashing after start-up",
     "ending_service_crash_during": "service task crashing during start-up",
+    "teardown_probes_registered_during_teardown": "callbacks registered on the root context while it was being torn down",
     "teardown_probes_checked": "teardown probes whose exactly-once / reverse order was checked",
 }
 ASSUMPTIONS = [
@@ -121,6 +122,7 @@ def gen_case(idx: int, seed: int, tier: str) -> Any:
     for n in tree:
         n["td_prepare"] = rng.randint(1, 3) if rng.random() < 0.8 else 0
         n["td_start"] = rng.randint(1, 3) if rng.random() < 0.8 else 0
+        n["ct_start"] = rng.random() < 0.3
         n["svc_prepare"] = rng.choice([None, None, None, None, "function", "unhashable_object", "builtin"])
         n["svc_start"] = rng.choice([None, None, None, None, "function", "unhashable_object", "builtin"])
         n["sleep_prepare"] = rng.choice([0, 0.5, 1])
@@ -186,6 +188,17 @@ class Scenario:
                         sc.log("td-run", tid, form="async")
 
                     add_teardown_callback(acb0)
+                elif form == 2 and (tid + case.get("td_salt", 0)) % 3 == 0:
+                    # a callback that registers one more callback while the teardown is running: that one runs next
+                    counter[0] += 1
+                    late_tid = counter[0]
+
+                    def registering(tid: int = tid, late_tid: int = late_tid) -> None:
+                        sc.log("td-run", tid, form="sync-registering")
+                        add_teardown_callback(lambda: sc.log("td-run", late_tid, form="sync-late"))
+                        sc.log("td-reg", late_tid, by=path, phase="teardown", late=True)
+
+                    add_teardown_callback(registering)
                 else:
                     add_teardown_callback(lambda tid=tid: sc.log("td-run", tid, form="sync"))
                 sc.log("td-reg", tid, by=path, phase=phase)
@@ -271,6 +284,21 @@ class Scenario:
             async def start(self: Any) -> None:
                 await phase_body(path, "start")
 
+            if node.get("ct_start"):
+                # start() written as an async generator under @context_teardown: its second half is a teardown step of the root
+                # context, registered when the first half (which registers callbacks of its own) reaches the yield
+                from asphalt.core import context_teardown
+
+                counter[0] += 1000  # ids of its own range
+                ct_tid = counter[0]
+
+                @context_teardown
+                async def start(self: Any, ct_tid: int = ct_tid) -> Any:  # noqa: F811
+                    await phase_body(path, "start")
+                    sc.log("td-reg", ct_tid, by=path, phase="start-yield")
+                    yield
+                    sc.log("td-run", ct_tid, form="context_teardown")
+
             ns["start"] = start
             base: Any = Component
             if path == "" and ending["cli"]:
@@ -343,11 +371,26 @@ def check(sc: Scenario) -> tuple[list[dict[str, Any]], dict[str, int]]:
     regs = [e["actor"] for e in ev if e["kind"] == "td-reg"]
     runs = [e["actor"] for e in ev if e["kind"] == "td-run"]
     c["teardown_probes_checked"] = len(regs)
-    if runs != list(reversed(regs)):
+    # (a stack simulation rather than a comparison of two lists: a callback may register another one while the teardown runs)
+    stack: list[Any] = []
+    order_ok = True
+    for e in ev:
+        if e["kind"] == "td-reg":
+            stack.append(e["actor"])
+        elif e["kind"] == "td-run":
+            if stack and stack[-1] == e["actor"]:
+                stack.pop()
+            else:
+                order_ok = False
+                if e["actor"] in stack:
+                    stack.remove(e["actor"])
+    dup = sorted({t for t in runs if runs.count(t) > 1})
+    if stack or dup or not order_ok or sorted(runs) != sorted(regs):
         missing = [t for t in regs if t not in runs]
-        dup = sorted({t for t in runs if runs.count(t) > 1})
         why = f"never run: {missing}" if missing else (f"run twice: {dup}" if dup else "wrong order")
         bad(f"app-teardown[{kind}]", f"teardown probes registered {regs}, run {runs} ({why}) for ending {ending}")
+    if any(e.get("late") for e in ev if e["kind"] == "td-reg"):
+        c["teardown_probes_registered_during_teardown"] = sum(1 for e in ev if e["kind"] == "td-reg" and e.get("late"))
     if any(e["kind"] == "td-run" and e["seq"] > back for e in ev):
         bad("app-teardown-late", "a teardown probe ran after run_application had returned")
     # ---- outcome table
